@@ -990,7 +990,13 @@ func c12Contract(p *Program, r *Report, m *envModel, fns []*ssa.Function, mutato
 		}
 	}
 	r.Floor("C12.R7", n, 12)
-	// deep copy: the parent of the copy is the deep copy of the parent (self-recursion), so the whole chain is snapshotted
+	envWholeChainCopy(p, r, m, fns, "C12.R5")
+}
+
+// envWholeChainCopy: a function that gives a copied scope a new parent obtains it by recursing with itself on the parent,
+// so the snapshot covers the whole chain (used by C12.R5 and C14.R6).
+func envWholeChainCopy(p *Program, r *Report, m *envModel, fns []*ssa.Function, rule string) int {
+	n := 0
 	for _, fn := range fns {
 		if len(fn.Params) != 1 || !m.isEnvPtr(fn.Params[0].Type()) {
 			continue
@@ -1007,12 +1013,14 @@ func c12Contract(p *Program, r *Report, m *envModel, fns []*ssa.Function, mutato
 				}
 				// storing the parent link of a copied scope
 				c, isCall := st.Val.(*ssa.Call)
+				n++
 				rec := isCall && staticCallee(c) == fn && len(c.Call.Args) == 1 && m.isParentLoad(c.Call.Args[0], fa.X)
-				r.Check(rec, "C12.R5", funcName(fn)+"|whole-chain", p.Pos(instrPos(st)), "the copy's parent is the same deep copy applied to the parent (recursion over the whole chain)",
+				r.Check(rec, rule, funcName(fn)+"|whole-chain", p.Pos(instrPos(st)), "the copy's parent is the same deep copy applied to the parent (recursion over the whole chain)",
 					"the copy's parent is not produced by recursing with the same function: scopes further up are shared between the copy and the original")
 			}
 		}
 	}
+	return n
 }
 
 // underOwnHit: block is dominated by the true edge of a comma-ok lookup in one of recv's own tables.
